@@ -154,13 +154,57 @@ def worker(c, item):
         c.sample(dict(spec=spec))
 
 
+def multi_reaction(c, item):
+    """several reactions in one model, evaluated through the plain and safe interface loops at every state of a small box:
+    each entry must be its own closed form (safe, stochastic forms: 0 where a consumed species is short), whatever the
+    other reactions of the same call did"""
+    from bioscrape.types import Model
+    from bioscrape.simulator import ModelCSimInterface, SafeModelCSimInterface
+    from ..ref import crn
+    order, perm = item
+    rx_all = [dict(reactants=['A'], products=['C'], kind='massaction', k=1.3),
+              dict(reactants=['C'], products=['B'], kind='general', rate=('*', ('num', 2.0), ('id', 'C'))),
+              dict(reactants=['A', 'B'], products=['C'], kind='massaction', k=0.7),
+              dict(reactants=[], products=['A'], kind='massaction', k=3.0),
+              dict(reactants=['B', 'B', 'A'], products=['C'], kind='massaction', k=0.2),
+              dict(reactants=['B'], products=[], kind='hillnegative', k=1.5, K=2.0, n=2.0, s1='C')]
+    rxs = [rx_all[i] for i in perm]
+    from ..modelspec import reaction_tuple
+    m = Model(species=list(order), reactions=[reaction_tuple(r) for r in rxs], initial_condition_dict={'A': 1, 'B': 1, 'C': 1})
+    sp = dict(species=list(order), reactions=rxs, params={}, x0={})
+    S, Sd = crn.stoich(sp)
+    ifaces = {'plain': ModelCSimInterface(m), 'safe': SafeModelCSimInterface(m)}
+    s2i = m.get_species2index()
+    c.count('states')
+    for xs in itertools.product(range(4), repeat=3):
+        x = dict(zip(['A', 'B', 'C'], [float(v) for v in xs]))
+        st = np.zeros(3)
+        for sname, i in s2i.items():
+            st[i] = x[sname]
+        for mode in MODES:
+            for route, iface in ifaces.items():
+                got = iface.py_verif_compute_propensities(st, 0.0, 2.0, mode)
+                exp = crn.rates(sp, x, mode, 2.0, 0.0, route == 'safe', None, (S, Sd))
+                c.count('evaluations', len(rxs)); c.count('transitions', len(rxs))
+                for j in range(len(rxs)):
+                    if not rel_close(float(got[j]), float(exp[j]), RTOL, 1e-300):
+                        c.violation('C01/multi-reaction/%s/%s' % (mode, route), 'reaction %d of %d (%s) has rate %r at %s, closed form %r' % (
+                            j, len(rxs), rxs[j]['kind'], float(got[j]), x, float(exp[j])), dict(spec=dict(kind='multi', order=list(order), perm=list(perm)), x=x, mode=mode, route=route))
+                        return
+    c.nontrivial(('multi', tuple(order), tuple(perm)))
+
+
 def run(ctx):
+    perms = list(itertools.permutations(range(6), 4 if ctx.quick else 6))
+    if ctx.quick:
+        perms = perms[::4]
+    pmap(multi_reaction, [(o, p_) for o in ORDERS for p_ in perms], ctx, nshards=64)
     sp = specs(ctx.tier)
     al = alphabets(ctx.tier)
     ctx.bounds = dict(alphabets=al, models=len(sp), reactant_sequences='all orderings of length 0..%d over A,B,C' % al['maxlen'])
     ctx.rule = ('E2: every reactant sequence of length 0..4 over {A,B,C} (x numeric k / named k / explicit species string) '
                 'and every Hill family x s1 x d x numeric/named, in 2 species declaration orders; each crossed with the full '
-                'state/parameter/volume alphabets in 4 modes x 3 routes (bare propensity, plain interface, safe interface). '
+                'state/parameter/volume alphabets in 4 modes x 3 routes (bare propensity, plain interface, safe interface); plus ordered selections of 4 (thorough: all 6) reactions from a 6-reaction menu in one model, every entry of the plain and safe interface loops at every state of {0..3}^3. '
                 'states = models built; transitions = rate evaluations on the implementation. A case (kind, multiset/hill '
                 'configuration, parameter form, declaration order, mode) is non-trivial when at least one of its points has a '
                 'non-zero closed form that, for repeated reactants, differs from the multiplicity-free form.')
@@ -170,6 +214,8 @@ def run(ctx):
 
 
 def replay(ctx, case):
+    if case['spec'].get('kind') == 'multi':
+        return multi_reaction(ctx, (case['spec']['order'], case['spec']['perm']))
     al = alphabets('thorough')
     al.update(sint=sorted(set(al['sint'] + [v for v in case['x'].values() if float(v).is_integer()])),
               sreal=sorted(set(al['sreal'] + list(case['x'].values()))))
